@@ -801,8 +801,8 @@ def generate(rng, tier, outdir):
     known = known_classes()
     g = Gen(w, known)
     quick = tier == "quick"
-    N = dict(pcq=40, cut_gates=40, partition=50, cut_wires=40, expand=20, find_cuts=24, generate=24, dqi=30, reconstruct=6,
-             inplace=36) if quick else \
+    N = dict(pcq=100, cut_gates=100, partition=120, cut_wires=100, expand=40, find_cuts=50, generate=50, dqi=70, reconstruct=10,
+             inplace=90) if quick else \
         dict(pcq=400, cut_gates=400, partition=500, cut_wires=400, expand=150, find_cuts=200, generate=200, dqi=300,
              reconstruct=40, inplace=300)
     w.notes.append("known classes routed to the current-behaviour checker: " + (",".join(sorted(known)) or "none"))
